@@ -27,6 +27,7 @@ func init() {
 	reg("C02", "C02.R10", "E2", "events of a stream cannot overtake an event held by a busy action: a busy action is not match-filtered (same rule as C15.R4)", 1, ruleBusyNotFiltered)
 	reg("C02", "C02.R11", "E2+E3", "batches are committed in the order they were sealed: sequenced commit region (same rule as C01.R5)", 1, ruleSequencedRegion)
 	reg("C02", "C02.R12", "E2+E6", "a stream parked by a joining action stays visible to the time-out heartbeat: blocked-list positions stay exact (same rule as C04.R11)", 2, ruleBlockedIndex)
+	reg("C02", "C02.R13", "E2", "after a restart an event is accepted again only beyond its stream's saved offset: PassEvent refuses exactly offset <= saved (same rule as C03.R5)", 1, ruleResume)
 	reg("C02", "C02.R7", "E2+E3", "stream.put appends at the tail under the lock and numbers events by +1", 1, ruleStreamPutFIFO)
 }
 
